@@ -252,3 +252,48 @@ def milp_points(rws, bounds, objectives):
         if r is not None and r.x is not None:
             out.append(tuple(int(round(v)) for v in r.x))
     return out
+
+
+def well_defined(obj):
+    """Independent well-definedness predicate over a built object graph. Returns (ok, reason).
+    (a) the id dependency graph is acyclic, (b) no node lists the same child id twice, (c) every id has a single
+    definition: same variable bounds on every node carrying it, and all compound nodes carrying it agree on sign,
+    value and the list of child ids."""
+    nodes = walk(obj)
+    bounds = {}
+    defs = {}
+    edges = {}
+    for x in nodes:
+        b = (int(x.bounds.lower), int(x.bounds.upper))
+        if bounds.setdefault(x.id, b) != b:
+            return False, f"id {x.id!r} carries bounds {bounds[x.id]} and {b}"
+        if not is_leaf(x):
+            cids = [c.id for c in x.propositions]
+            if len(set(cids)) != len(cids):
+                return False, f"node {x.id!r} lists a child id twice: {cids}"
+            d = (int(x.sign), int(x.value), tuple(sorted(map(repr, cids))))
+            if defs.setdefault(x.id, d) != d:
+                return False, f"id {x.id!r} has two different definitions {defs[x.id]} and {d}"
+            edges.setdefault(x.id, set()).update(cids)
+    # cycle detection (iterative DFS, colours)
+    WHITE, GREY, BLACK = 0, 1, 2
+    colour = {}
+    for start in edges:
+        if colour.get(start, WHITE) != WHITE:
+            continue
+        stack = [(start, iter(edges.get(start, ())))]
+        colour[start] = GREY
+        while stack:
+            node, it = stack[-1]
+            for nxt in it:
+                c = colour.get(nxt, WHITE)
+                if c == GREY:
+                    return False, f"cycle through id {nxt!r}"
+                if c == WHITE:
+                    colour[nxt] = GREY
+                    stack.append((nxt, iter(edges.get(nxt, ()))))
+                    break
+            else:
+                colour[node] = BLACK
+                stack.pop()
+    return True, ""
